@@ -16,7 +16,7 @@ ID = 'C20'
 CASE_TYPE = 'C20.case'
 EXTRA_IMPORTS = 'From PJ Require Import Model.Msg Model.Mocker.\n'
 RULE = ('operation / call histories of length 1..4 (quick: all of length <= 2 over a reduced alphabet + 2500 sampled to length 6) / '
-        '(thorough: all of length <= 3 + 40000 sampled to length 7) + 400 / 4000 rotation scenarios (k patches on one pair, calls, a replace at each index, more calls) over 2 endpoints x 2 methods x patches {result (truthy and falsy values), error, callback, callback that raises} x '
+        '(thorough: all of length <= 3 + 40000 sampled to length 7) + 400 / 4000 rotation scenarios (k patches on one pair, calls, a replace at each index, more calls) over 2 endpoints x 2 methods x patches {result (truthy and falsy values), error, callback (returning its arguments, or a constant incl. the falsy values 0, null, "", [], {}, false), callback that raises} x '
         'once on / off x patch ids x replace at index -3..2 (Python list indices) x remove (method / whole endpoint) x reset x passthrough on / off x calls with '
         'positional / named / absent params and ids {1, 0, "", "x", none} x single / batch (incl. all-notification and mixed), for the '
         'sync and the async transport. distinct = distinct (history, passthrough, kind); non-trivial = at least one reply was produced')
@@ -27,6 +27,7 @@ ASSUMPTIONS = ['batch documents carry pairwise distinct ids (a batch with duplic
 EPS = ['http://a', 'http://b']
 METHODS = ['m', 'n']
 PATCHES = [('result', 'r1'), ('result', None), ('result', [0]), ('result', 0), ('result', ''), ('result', False), ('result', []), ('result', {}), ('error', (7, 'e7', None)), ('error', (-32000, '', 'UNSET')), ('callback', 'c1'), ('callback', 0),
+           ('callback', {'const': 0}), ('callback', {'const': None}), ('callback', {'const': ''}), ('callback', {'const': []}), ('callback', {'const': False}), ('callback', {'const': {}}),
            ('raise', 'boom')]       # a callback that raises
 PARAMS = [None, [1], {'k': 2}, [[], None]]
 IDS = [1, 0, '', 'x', None]
@@ -128,6 +129,8 @@ def mk_raiser(tag):
 
 def mk_callback(tag):
     def cb(*a, **kw):
+        if isinstance(tag, dict) and list(tag) == ['const']:
+            return tag['const']                 # a callback whose value does not depend on the arguments - and may be falsy
         return [tag, kw if kw else list(a)]
     return cb
 
